@@ -222,3 +222,28 @@ func pathAssumedN(p *core.Path, is func(ssa.Value) bool, val bool) bool {
 	}
 	return false
 }
+
+// passedOnEveryReturn: every path from the entry of g to one of its normal
+// returns executes an instruction satisfying is — directly, or by calling a
+// function of which the same holds (three levels). A call of g is then as good
+// as the instruction itself for a "no path avoids it" rule of the caller. A
+// path of g that ends in a panic returns nothing to the caller and is not a way
+// round.
+func passedOnEveryReturn(g *ssa.Function, is func(ssa.Instruction) bool, depth int) bool {
+	if g == nil || len(g.Blocks) == 0 || depth > 3 {
+		return false
+	}
+	blocker := func(in ssa.Instruction) bool {
+		if is(in) {
+			return true
+		}
+		if c, ok := in.(*ssa.Call); ok && !c.Call.IsInvoke() {
+			if h := c.Call.StaticCallee(); h != nil && h != g {
+				return passedOnEveryReturn(h, is, depth+1)
+			}
+		}
+		return false
+	}
+	isRet := func(in ssa.Instruction) bool { _, ok := in.(*ssa.Return); return ok }
+	return core.PathFromBlock(g.Blocks[0], isRet, blocker) == nil
+}
